@@ -184,7 +184,7 @@ func (s *shrinker) try(cur *ReplayFile, cand *Scenario) *ReplayFile {
 func hasStepFault(sc *Scenario) bool {
 	for _, c := range sc.Clients {
 		for _, op := range c.Ops {
-			if op.CancelStep > 0 {
+			if op.CancelStep > 0 || op.ProbeStep > 0 {
 				return true
 			}
 		}
